@@ -87,7 +87,11 @@ fn run(src: &Path, out: &Path) -> Result<(), String> {
             lockexts.extend(atomics::scan_locks(&f, rel));
         }
         let n_lock_sites: usize = fns.iter().map(|f| f.blocking.iter().filter(|b| b.0 == "lock").count()).sum();
-        write_if_changed(&out.join("GenLocks.v"), &atomics::locks_to_coq(&lockexts, n_lock_sites));
+        let tree_lock = atomics::scan_tree_lock(&node);
+        write_if_changed(
+            &out.join("GenLocks.v"),
+            &(atomics::locks_to_coq(&lockexts, n_lock_sites) + &atomics::tree_lock_to_coq(&tree_lock, &sites)),
+        );
         write_if_changed(&out.join("GenAtomics.v"), &atomics::to_coq(&sites, &fns));
         json.push_str("\"atomics\": [\n");
         json.push_str(
